@@ -181,10 +181,18 @@ func handle(req J) J {
 		return opMerge(req)
 	case "compile":
 		return opCompile(req)
+	case "mergetree":
+		i, err := mergeTree(req["tree"])
+		if err != nil {
+			return J{"err": err.Error()}
+		}
+		return J{"ok": inputJSON(i)}
 	case "version":
 		return opVersion(req)
 	case "build":
 		return opBuild(req)
+	case "surface":
+		return opSurface(req)
 	case "glob":
 		m, err := filepath.Glob(str(req, "pattern"))
 		if err != nil {
@@ -462,6 +470,31 @@ func readAll(files []string, defaults bool) (input.Input, error) {
 		i = input.Merge(i, tmp)
 	}
 	return i, nil
+}
+
+// mergeTree: a leaf is a YAML document (string), an inner node a list of subtrees merged left to right
+func mergeTree(t any) (input.Input, error) {
+	switch x := t.(type) {
+	case string:
+		var i input.Input
+		err := yaml.Unmarshal([]byte(x), &i)
+		return i, err
+	case []any:
+		acc := input.Input{}
+		for n, sub := range x {
+			i, err := mergeTree(sub)
+			if err != nil {
+				return acc, err
+			}
+			if n == 0 {
+				acc = i
+			} else {
+				acc = input.Merge(acc, i)
+			}
+		}
+		return acc, nil
+	}
+	return input.Input{}, fmt.Errorf("bad tree")
 }
 
 // merge the given YAML documents left to right with the real input.Merge
